@@ -50,6 +50,7 @@ BREAK = {
         (['C01.f'], S, "        # send next segment (a zero-length bundle is one empty START+END segment)\n", "        if self._tx_length == self._tx_tmp.total_length:\n            return False\n"),
     ],
     'C04': [
+        (['C04.d'], S, "        if ext_items and not flg & messages.TransferSegment.Flag.START:\n            raise RuntimeError(\n                'Cannot send extension items outside of START message')\n", ""),
         (['C04.a'], S, "        if not self._in_sess:\n            raise RuntimeError(\n                'Attempt to transfer before session established')\n        if ext_items and", "        if ext_items and"),
         (['C04.a'], S, "        if self._in_term:\n            raise RuntimeError('Already in terminating state')\n", ""),
         (['C04.b'], S, "        if not self._as_passive:\n            # Passive side listens first\n            self._conhead_this = self.send_contact_header().payload\n\n        self._update_state('contact-negotiating')", "        self._conhead_this = self.send_contact_header().payload\n\n        self._update_state('contact-negotiating')"),
@@ -75,6 +76,7 @@ BREAK = {
         (['C06.e'], FR, "        if frag_offset == 0:\n            reassm.first_frag = ctr.bundle", "        if reassm.first_frag is None:\n            reassm.first_frag = ctr.bundle"),
     ],
     'C07': [
+        (['C07.e'], M, "packet.bind_layers(MessageHead, TransferAck, msg_id=0x2)\npacket.bind_layers(MessageHead, TransferRefuse, msg_id=0x3)", "packet.bind_layers(MessageHead, TransferAck, msg_id=0x3)\npacket.bind_layers(MessageHead, TransferRefuse, msg_id=0x2)"),
         (['C07.a'], S, "                self._logger.debug('Decoded partial packet: %s', err)\n                return", "                self._logger.debug('Decoded partial packet: %s', err)\n                self.__rx_buf = self.__rx_buf[1:]\n                return"),
         (['C07.c'], M, "        formats.verify_sized_item(self.length, self.getfieldval('data'))\n", ""),
     ],
@@ -85,6 +87,8 @@ BREAK = {
         (['C08.c'], BN, "        for blk in self.blocks:\n            if not blk.check_crc():\n                fail.add(blk.block_num)", "        for blk in self.blocks[:1]:\n            if not blk.check_crc():\n                fail.add(blk.block_num)"),
     ],
     'C09': [
+        (['C09.d'], S, "            if self._in_term:\n                # no new transfer may start after SESS_TERM\n                return False\n", ""),
+        (['C09.f'], 'tcpcl/agent.py', "        path = hdl.object_path\n        self.connection_closed(path)\n", "        path = hdl.object_path\n"),
         (['C09.a'], S, "            self._rx_teardown()\n\n            self._check_sess_term()", "            self._rx_teardown()\n"),
         (['C09.b'], S, "                        self.send_sess_term(pkt.payload.reason, True)", "                        self.send_sess_term(pkt.payload.reason, False)"),
         (['C09.e'], S, "        if self._in_term:\n            # already terminating and nothing further heard\n            self.close()\n            return False\n", ""),
@@ -111,6 +115,7 @@ BREAK = {
         (['C12.f'], SEC, "                    LOGGER.error('Failed to verify BIB in block num %s with context %s: %s', bib.block_num, bib.payload.context_id, err)\n                    result = StatusReport.ReasonCode.FAILED_SEC", "                    result = 'Failed to verify BIB: {}'.format(err)"),
     ],
     'C13': [
+        (['C13.e'], UA, "                msg_data = data[off_start:off_end]", "                msg_data = data[off_start:]"),
         (['C13.a'], UA, "        if mtu is None or len(data) < mtu:", "        if mtu is None or len(data) < 2 * mtu:"),
         (['C13.b'], UA, "            if remain_size <= 0:\n                raise RuntimeError('Segment overhead {} too large for MTU {}'.format(mtu - remain_size, mtu))\n\n            frag_offset = 0", "\n            frag_offset = 0"),
         (['C13.c'], UA, "            remain_size = mtu - (ext_base_encsize - 1 + data_size_encsize)", "            remain_size = mtu - (ext_base_encsize - 1)"),
@@ -129,22 +134,27 @@ BREAK = {
         (['C15.d'], S, "                    self._sessinit_peer = pkt.payload\n                    self._in_sess = True\n                    self.merge_session_params()\n                    self._update_state('established')", "                    self._sessinit_peer = pkt.payload\n                    self._in_sess = True\n                    self._update_state('established')\n                    self.merge_session_params()"),
     ],
     'C16': [
+        (['C16.c'], SEC, "            elif isinstance(msg_obj, EncMessage):", "            elif isinstance(msg_obj, MacMessage):"),
         (['C16.a'], SEC, "                    msg_dec = cbor2.loads(msg_enc)\n                    tgt_blk.setfieldval('btsd', msg_dec[2])\n                    msg_dec[2] = None\n\n                elif keyops.WrapOp", "                    msg_dec = cbor2.loads(msg_enc)\n                    msg_dec[2] = None\n\n                elif keyops.WrapOp"),
         (['C16.b'], SEC, "        if plaintext is not None:\n            LOGGER.info('Verified BCB num", "        if plaintext:\n            LOGGER.info('Verified BCB num"),
     ],
     'C17': [
+        (['C17.e'], S, "        self._tx_pend_ack.discard(item)\n        if item in self._tx_pend_start:", "        self._tx_pend_ack.clear()\n        if item in self._tx_pend_start:"),
         (['C17.a'], S, "        if transfer_id not in self._tx_map:\n            raise RejectError(messages.RejectMsg.Reason.UNEXPECTED)\n\n        if self._config.modulate_target_ack_time is not None:", "        if self._config.modulate_target_ack_time is not None:"),
         (['C17.b'], S, "                elif msgcls in (messages.Keepalive, messages.RejectMsg):", "                elif msgcls in (messages.Keepalive,):"),
         (['C17.c'], S, "                    self.recv_xfer_refuse(pkt.payload.transfer_id, pkt.payload.reason)", "                    self.recv_xfer_refuse(pkt.payload.transfer_id, pkt.payload.flags)"),
         (['C17.a2'], S, "                    if not self._in_sess:\n                        raise RejectError(messages.RejectMsg.Reason.UNEXPECTED)\n                    # Send a reply (if not the initiator)", "                    # Send a reply (if not the initiator)"),
     ],
     'C18': [
+        (['C18.e'], 'bp/cla.py', "conn_iface.connect_to_signal('session_state_changed', handle_state_change)", "conn_iface.connect_to_signal('session_state', handle_state_change)"),
         (['C18.a'], S, "            self.recv_bundle_finished(\n                str(item.transfer_id), recv_length, 'success')", "            self.recv_bundle_finished(\n                item.transfer_id, recv_length, 'success')"),
         (['C18.c'], S, "            self._tx_map.pop(item.transfer_id, None)\n", ""),
         (['C18.d'], S, "            and self._tx_tmp is None\n", ""),
         (['C18.a'], UA, "            node_id = str(extmap.get(ExtensionKey.SENDER_NODEID, ''))", "            node_id = extmap.get(ExtensionKey.SENDER_NODEID, '')"),
     ],
     'C19': [
+        (['C19.e'], BA, "            self._finish_bundle(ctr)\n            return\n\n        if 'deliver' in ctr.actions:", "            self._finish_bundle(ctr)\n\n        if 'deliver' in ctr.actions:"),
+        (['C19.f'], SEC, "                    LOGGER.error('Failed to verify BIB in block num %s with context %s: %s', bib.block_num, bib.payload.context_id, err)\n                    result = StatusReport.ReasonCode.FAILED_SEC", "                    result = 'Failed to verify BIB: {}'.format(err)"),
         (['C19.a'], BU, "            'delete': PrimaryBlock.Flag.REQ_DELETION_REPORT,\n            'deliver': PrimaryBlock.Flag.REQ_DELIVERY_REPORT,", "            'delete': PrimaryBlock.Flag.REQ_DELIVERY_REPORT,\n            'deliver': PrimaryBlock.Flag.REQ_DELETION_REPORT,"),
         (['C19.b'], BU, "        if status_dest is None or status_dest == 'dtn:none':\n            return None", "        if status_dest is None:\n            return None"),
         (['C19.c'], BU, "            bundle_flags=PrimaryBlock.Flag.PAYLOAD_ADMIN,\n            destination=self.bundle.primary.report_to,", "            bundle_flags=self.bundle.primary.bundle_flags | PrimaryBlock.Flag.PAYLOAD_ADMIN,\n            destination=self.bundle.primary.report_to,"),
